@@ -544,10 +544,10 @@ def run_shard(job, tier, entry, params, jd):
     try:
         gb = link_shard(jd, job, params)
         if len(solvers) == 1:
-            r = run_cbmc_once(cbmc_cmd(gb, entry, job, solvers[0]), timeout, mem)
+            r = run_cbmc_once(cbmc_cmd(gb, entry, job, solvers[0]), timeout, job.get("mem_limit_gb", max(3 * mem, 10)))   # mem_gb = scheduling weight, limit is separate
             r["solver"] = solvers[0]
         else:
-            r = race(gb, entry, job, solvers, timeout, mem)
+            r = race(gb, entry, job, solvers, timeout, job.get("mem_limit_gb", max(3 * mem, 10)))
     finally:
         SCHED.release(mem, len(solvers))
     res["wall_s"] = round(r["wall"], 2); res["solver"] = r.get("solver"); res["rss_mb"] = r.get("maxrss_mb")
@@ -556,7 +556,7 @@ def run_shard(job, tier, entry, params, jd):
     pr = parse_cbmc(r["out"])
     res.update(stats_from_messages(pr["messages"]))
     if pr["verdict"] is None:
-        oom = r["rc"] in (-9, -6, 134, 137) or "bad_alloc" in r["err"] or "Out of memory" in r["err"] or "std::bad_alloc" in (pr["error"] or "")
+        oom = r["rc"] in (-9, -6, 134, 137) or "bad_alloc" in r["err"] or "Out of memory" in r["err"] or "std::bad_alloc" in (pr["error"] or "") or "out of memory" in (pr["error"] or "")
         res["status"] = "oom" if oom else "error"
         res["detail"] = ((pr["error"] or "") + r["err"][-1500:] + r["out"][-1500:])
         return res
